@@ -53,13 +53,42 @@ def make(desc):
         from unyt import unyt_quantity as uq
 
         return [uq(1.5, desc[1]), uq(2.5, desc[1]), uq(-3.0, desc[1])]
+    if k == "zq":  # zero-filled *quantity*: the all-zero exception is documented for bare zeros only
+        sh = SHAPES[desc[2]]
+        return unyt_array(np.zeros(sh), desc[1]) if sh != () else unyt_quantity(0.0, desc[1])
+    if k == "hq":  # same symbol, same scale, another dimension: unit objects from one registry's history
+        sh = SHAPES[desc[2]]
+        u = _history_units()[desc[1]]
+        return unyt_array(_data(sh), u) if sh != () else unyt_quantity(float(_data(sh)), u)
     raise ValueError(desc)
+
+
+_HIST = {}
+
+
+def _history_units():
+    """registry history: 'vfoo' added as a length, a unit captured, the symbol removed and re-added as a time with the
+    same scale, another unit captured.  The two units must never be combined."""
+    if not _HIST:
+        import unyt.dimensions as D
+        from unyt import Unit
+        from unyt.unit_registry import UnitRegistry
+
+        reg = UnitRegistry()
+        reg.add("vfoo", 2.0, D.length)
+        _HIST["old"] = Unit("vfoo", registry=reg)
+        reg.remove("vfoo")
+        reg.add("vfoo", 2.0, D.time)
+        _HIST["new"] = Unit("vfoo", registry=reg)
+    return _HIST
 
 
 def dim_of(desc, unit_dims):
     k = desc[0]
-    if k in ("q", "qlist"):
+    if k in ("q", "qlist", "zq"):
         return unit_dims[desc[1]]
+    if k == "hq":
+        return T.LENGTH if desc[1] == "old" else T.TIME
     if k in ("dimless", "pct", "bare"):
         return T.ZERO
     return None  # zero: wildcard
@@ -201,6 +230,10 @@ def applicable(form, dx, dy):
     """shape/kind preconditions of a form (soundness: only calls NumPy itself accepts)"""
     n = form.needs
     kx, ky = dx[0], dy[0]
+    if "hq" in (kx, ky) and "str" in form.name:
+        return False  # a unit *string* denotes the registry's current definition, not the captured unit object
+    kx = "q" if kx in ("zq", "hq") else kx
+    ky = "q" if ky in ("zq", "hq") else ky
     sx = dx[-1] if kx not in ("qlist",) else "a"
     sy = dy[-1] if ky not in ("qlist",) else "a"
     if ky == "zero" and sy == "list":
@@ -252,6 +285,10 @@ def expectation(form, dx, dy, dimx, dimy):
     kx, ky = dx[0], dy[0]
     if kx == "zero" or ky == "zero":
         return "unjudged:all-zero bare operand (documented exception)"
+    if ky == "zq" and dimy == T.ZERO:
+        ky = "dimless"
+    if kx == "zq" and dimx == T.ZERO:
+        kx = "dimless"
     if dimx == dimy:
         return "control"
     dimless_involved = dimx == T.ZERO or dimy == T.ZERO
@@ -376,10 +413,13 @@ def part_cells(payload):
                     qa = ("q", ua, sx)
                     others = [("dimless", sy), ("pct", sy), ("bare", sy), ("zero", sy), ("zero", "list"), ("qlist", ub),
                               ("q", ua, sy)]
+                    others += [("zq", "dimensionless", sy), ("zq", "%", sy), ("zq", ub, sy)]
                     for o in others:
                         pairs.append((qa, o))
                         pairs.append((o, qa))
                     pairs.append((("dimless", sx), ("pct", sy)))
+                    pairs.append((("dimless", sx), ("zq", ua, sy)))
+                    pairs.append((("zq", ua, sx), ("pct", sy)))
                 for dx, dy in pairs:
                     if not applicable(form, dx, dy):
                         continue
@@ -388,6 +428,12 @@ def part_cells(payload):
                         run_cell(form, dx, dy, dimx, dimy, known, part)
                     except core.HarnessError:
                         raise
+    if payload.get("history"):
+        for form in forms:
+            for sx, sy in SHAPE_PAIRS_Q:
+                for dx, dy in ((("hq", "old", sx), ("hq", "new", sy)), (("hq", "new", sx), ("hq", "old", sy))):
+                    if applicable(form, dx, dy):
+                        run_cell(form, dx, dy, dim_of(dx, unit_dims), dim_of(dy, unit_dims), known, part)
     return part
 
 
@@ -455,7 +501,11 @@ def run(ctx):
     ctx.extra["representative_units"] = rep_units
     ctx.extra["dimension_pairs_run"] = len(cells)
     ctx.extra["forms"] = len(_forms())
-    ctx.merge(core.pmap(MOD, "part_cells", [{"cells": sh, "unit_dims": unit_dims} for sh in core.shards(cells, 32)]))
+    unit_dims["dimensionless"] = [str(x) for x in T.ZERO]
+    unit_dims["%"] = [str(x) for x in T.ZERO]
+    payloads = [{"cells": sh, "unit_dims": unit_dims} for sh in core.shards(cells, 32)]
+    payloads[0]["history"] = True
+    ctx.merge(core.pmap(MOD, "part_cells", payloads))
     c = ctx.hist.get("control cells", 0)
     ok = ctx.hist.get("control cells succeeded", 0)
     ctx.extra["control_success_rate"] = round(ok / c, 4) if c else None
